@@ -580,6 +580,17 @@ def _from_format(a, pre):
     return {"k": "ff", "text": proj.cps(text), "back": back}
 
 
+@op("locale_tables")
+def _locale_tables(a, pre):
+    """no call: the locale's exported tables (PV_LOCALES) are judged against the CLDR rules of the specification;
+    the one thing executed is the look-up path of the Locale class, which must agree with the data module"""
+    from pendulum.locales.locale import Locale
+
+    loc = Locale.load(a["locale"])
+    return {"k": "tables", "plural_via_class": [str(loc.plural(n)) for n in (0, 1, 2, 5, 11, 21, 100, 101, 102, 111, 1000)],
+            "ordinal_via_class": [str(loc.ordinal(n)) for n in (0, 1, 2, 3, 8, 11, 21, 22, 23, 80, 101, 111)]}
+
+
 @op("humanize")
 def _humanize(a, pre):
     p = P()
